@@ -173,6 +173,33 @@ def enum_prefix(item):
     return n, nt, verdicts, fails
 
 
+# ---- exhaustive stage 2: every slice body ------------------------------------------------------------
+BODY_ALPHABET = '-01: A'
+CONTEXTS = [('0[', ']'), ('@[', ']/0'), ('/A[', '].1[0]')]
+
+
+def enum_bodies(item):
+    """every string over BODY_ALPHABET of length len(prefix)..maxlen that starts with prefix, between the
+    brackets of a component slice, of the subset selector and of a slice followed by another component"""
+    prefix, maxlen = item
+    n = 0
+    verdicts = {'accept': 0, 'lax': 0, 'reject': 0}
+    fails = {}
+    for k in range(0, maxlen - len(prefix) + 1):
+        for tail in itertools.product(BODY_ALPHABET, repeat=k):
+            body = prefix + ''.join(tail)
+            for head, foot in CONTEXTS:
+                s = head + body + foot
+                ref, fl = check_string(s, both_parsers=False)
+                n += 1
+                verdicts[ref.verdict] += 1
+                for clause, detail in fl:
+                    if clause not in fails:
+                        fails[clause] = [detail, 0]
+                    fails[clause][1] += 1
+    return n, n, verdicts, fails
+
+
 def short_strings(plen):
     out = []
     for k in range(0, plen):
@@ -319,8 +346,8 @@ def run(tier, seed):
     maxlen = 5 if tier == 'quick' else 6
     rep.rule = ('exhaustive: every string of length 0..%d over the 12-symbol alphabet "@[]:/.>-01A " (all distinct); random: '
                 'grammar-derived expressions (1..8 components, every slice form, blanks) and 1-2 character insert/delete/'
-                'replace mutants; thorough adds atheris campaigns on the parser with the oracle inside the target.  '
-                'Non-trivial = the string holds a bracket or "@".' % maxlen)
+                'replace mutants; exhaustive again: every slice body of length 0..%d over "-01: A" in three bracket contexts; thorough adds atheris campaigns on the parser with the oracle inside the target.  '
+                'Non-trivial = the string holds a bracket or "@".' % (maxlen, 6 if tier == 'quick' else 8))
     rep.assumptions = ['grammar = docs/internals.rst EBNF + the two refinements pinned by tests/test_NodePathParser.py '
                        '(no leading ".", separator may be omitted only at the very start without "@")',
                        'IDs with characters outside [0-9A-Z] and integers only Python int() accepts are "unspecified": '
@@ -353,6 +380,21 @@ def run(tier, seed):
             rep.failure_counts['exhaustive: ' + clause] += cnt - 1
     for k in verd:
         rep.classes['enumerated_' + k] += verd[k]
+    # exhaustive, stage 2: slice bodies (longer than the whole-string enumeration reaches)
+    blen = 6 if tier == 'quick' else 8
+    n_before = rep.bulk_distinct
+    items = [(''.join(p), blen) for p in itertools.product(BODY_ALPHABET, repeat=2)]
+    items += [(b, 1) for b in [''] + list(BODY_ALPHABET)]         # bodies shorter than the prefix length
+    res = runner.run_enumerated(items, enum_bodies, workers, chunk=1)
+    for n, nt, v, fails in res:
+        rep.add_bulk(n, nt)
+        for k in v:
+            rep.classes['slice_body_' + k] += v[k]
+        for clause, (detail, cnt) in fails.items():
+            rep.add_failure('exhaustive: ' + clause, detail, {'input': detail['input'], 'kind': 'enumerated', 'previous': detail.get('previous')}, stage='slice body enumeration')
+            rep.failure_counts['exhaustive: ' + clause] += cnt - 1
+    rep.extra['enumerated_slice_bodies'] = {'alphabet': BODY_ALPHABET, 'max_length': blen, 'contexts': [h + '...' + f for h, f in CONTEXTS],
+                                            'strings': rep.bulk_distinct - n_before}
     rep.exhaustive = True
     rep.extra['enumerated_strings'] = rep.bulk_distinct
     rep.extra['enumerated_max_length'] = maxlen
